@@ -69,6 +69,14 @@ EXPRESSIONS = ['', '$v1', 'ADD($v1, 1)', 'GT($v2, $h1)', 'AND($v3, NOT($v2))', '
                '  MIN($v1,$v2,  3)', '$slv1.p1', 'true', '15', 'SUB($h3, 0.5)', 'BOGUS($v1)', 'ADD($v1', 'ADD(1)']
 TRANSFORMS = ['', 'MUL($, 2)', 'ADD($, 1)', 'MUL($, 1)', 'ADD($, 0)', 'MUL($,3)', 'ADD($v1, 1)', 'NOPE(']
 VPORT_IDS = ['v1', 'v2', 'v3', 'v4']
+# local virtual ports whose id starts with a slave's name and a dot (dots are legal in port ids): they belong to the hub, not to
+# the slave — a slave owns SlavePort objects / records of collection slave_ports only
+DOTTED_VPORT_IDS = ['slv1.override', 'slv2.door']
+
+
+def is_slave_id(pid):
+    return '.' in pid and pid not in DOTTED_VPORT_IDS
+
 STATIC = [
     {'port_id': 'h1', 'type_': 'number', 'writable': True},
     {'port_id': 'h2', 'type_': 'boolean', 'writable': True},
@@ -121,7 +129,7 @@ def gen_port_attrs(rng, pid, history):
         names += ['history_interval', 'history_retention']
     if pid.startswith('h'):
         names += ['gain', 'label', 'mode', 'flag', 'calib']
-    if '.' in pid:
+    if is_slave_id(pid):
         names = ['tag', 'expression', 'expires', 'display_name', 'unit', 'enabled', 'persisted', 'device_expression'] + (
             ['history_interval'] if history else [])
     if rng.random() < 0.05:
@@ -169,11 +177,19 @@ def gen_case(rng, idx):
     # most histories start by creating something to edit
     for pid in rng.sample(VPORT_IDS, rng.choice([1, 2, 2, 3])):
         ops.append(gen_vport(rng, pid))
-    created = [o for o in ops]
+    if with_slaves and rng.random() < 0.5:
+        # a local virtual port named like a port of a slave: it must survive whatever happens to that slave
+        pid = rng.choice(DOTTED_VPORT_IDS)
+        port_ids.append(pid)
+        ops.append(gen_vport(rng, pid))
+        ops.append({'op': 'patch_port', 'id': pid, 'attrs': {'display_name': rng.choice(SPECIAL_STRINGS), 'persisted': True}})
+    created = [o for o in ops if o['op'] == 'add_vport']
     if rng.random() < 0.6:
         # a persisted port with a value (and often a write transform)
         o = rng.choice(created)
         ops.append({'op': 'patch_port', 'id': o['id'], 'attrs': {'persisted': True, 'transform_write': rng.choice(['', 'MUL($, 2)', 'ADD($, 1)', 'MUL($, 1)'])}})
+        if rng.random() < 0.3:
+            ops[-1]['attrs']['internal'] = True        # persisted and internal are independent: the value is saved all the same
         if o['type'] == 'boolean':
             v = rng.random() < 0.5
         elif o.get('choices'):
@@ -417,7 +433,7 @@ def oracle(case, res):
     a_sl = {s['name']: s for s in after['devices']}
 
     def kind(pid):
-        return 'slave-port' if '.' in pid else ('virtual-port' if pid.startswith('v') else 'static-port')
+        return 'slave-port' if is_slave_id(pid) else ('virtual-port' if pid.startswith('v') or '.' in pid else 'static-port')
 
     # slaves whose in-memory state was changed by a PATCH that was refused afterwards and never saved: their ports (present or
     # absent with `enabled`) are reported once, at the slave
@@ -431,13 +447,13 @@ def oracle(case, res):
             unsaved_slaves.add(s_b['name'])
 
     for pid, bp in sorted(b_ports.items()):
-        owner = pid.split('.')[0] if '.' in pid else None
+        owner = pid.split('.')[0] if is_slave_id(pid) else None
         if owner in unsaved_slaves:
             continue
         if owner in polled:
             target, when = a_ports.get(pid), 'after the restart (device polled again)'
         else:
-            target, when = l_ports.get(pid) if '.' not in pid else a_ports.get(pid), 'after the restart'
+            target, when = l_ports.get(pid) if not is_slave_id(pid) else a_ports.get(pid), 'after the restart'
         if owner in polled and not a_sl.get(owner, {}).get('online'):
             continue                     # ports of a polled device are rebuilt from the device once it is online (observation O3)
         if target is None:
@@ -453,7 +469,7 @@ def oracle(case, res):
             if not (num(lb) and num(lt)) or (lb is not None and lt is not None and lt < lb):
                 add('slave-port', 'last_sync', 'port %s: last_sync is %s before the restart and %s %s (not a number, or earlier)' % (
                     pid, json.dumps(lb), json.dumps(lt), when), {'before': lb, 'after': lt})
-        if '.' in pid and bp.get('expression'):
+        if is_slave_id(pid) and bp.get('expression'):
             # the expression of a slave port is evaluated again once the hub runs; for an offline device its result becomes a
             # pending value: activity after the restart, not something that was (not) restored
             for v_ in (vb, vt):
@@ -474,14 +490,14 @@ def oracle(case, res):
         # history_last_timestamp (not exposed by the API; read from the port object)
         if owner not in polled:
             hb = before['internals']['history_last_timestamp'].get(pid)
-            hl = loaded['internals']['history_last_timestamp'].get(pid) if '.' not in pid else None
+            hl = loaded['internals']['history_last_timestamp'].get(pid) if not is_slave_id(pid) else None
             # only periodic sampling (history_interval > 0) reads the timestamp; the on-change recorder sets it without
             # marking the port for saving (observation O5)
-            if '.' not in pid and hb != hl and (bp.get('history_interval') or 0) > 0:
+            if not is_slave_id(pid) and hb != hl and (bp.get('history_interval') or 0) > 0:
                 add(kind(pid), 'history_last_timestamp', 'port %s: history_last_timestamp %s before, %s after loading' % (pid, hb, hl),
                     {'before': hb, 'after': hl})
         # value and driver writes
-        if '.' in pid:
+        if is_slave_id(pid):
             if owner not in polled and bp.get('enabled') and not same_value(bp.get('value'), target.get('value')):
                 prov = 'value' in (bp.get('provisioning') or [])
                 add('slave-port', 'value', 'port %s of a permanently offline device reports value %s before the restart and %s after it%s' % (
@@ -516,8 +532,11 @@ def oracle(case, res):
         elif writes:
             add(kind(pid), 'driver-writes', 'port %s is not persisted (or has no value) but its driver was written during loading: %s' % (
                 pid, json.dumps(writes)), {'writes': writes})
+    for pid in before['internals']['vport_args']:
+        if pid not in b_ports:
+            add('virtual-port', '<port>', 'virtual port %s is defined (collection vports / _vport_args) but does not exist before the restart' % pid, {})
     for pid in sorted(set(l_ports) - set(b_ports)):
-        if pid.split('.')[0] in unsaved_slaves:
+        if is_slave_id(pid) and pid.split('.')[0] in unsaved_slaves:
             continue
         add(kind(pid), '<port>', 'port %s does not exist before the restart and exists after it' % pid, {'after': port_view(l_ports[pid])})
 
@@ -559,7 +578,7 @@ def oracle(case, res):
             if any(r.get('id') == pid for r in store.get(coll, [])):
                 add('virtual-port', '<record>', 'virtual port %s was deleted but its record remains in collection %s' % (pid, coll), {}, collection=coll)
     for name in dead_slaves:
-        if name in l_sl or any(p.startswith(name + '.') for p in a_ports):
+        if name in l_sl or any(is_slave_id(p) and p.startswith(name + '.') for p in a_ports):
             add('slave', '<deleted>', 'slave %s was deleted and is back after the restart' % name, {})
         if any(r.get('id') == name for r in store.get('slaves', [])) or any(str(r.get('id', '')).startswith(name + '.') for r in store.get('slave_ports', [])):
             add('slave', '<record>', 'slave %s was deleted but records of it remain in the store' % name, {})
@@ -663,7 +682,7 @@ def model_tie(ctx, res, cases, results, name):
         recs = {x['id']: x for x in store.get('ports', [])}
         for bp in before['ports']:
             pid = bp['id']
-            if '.' in pid or pid not in l_ports or pid not in recs or pid not in (r.get('defaults') or {}):
+            if is_slave_id(pid) or pid not in l_ports or pid not in recs or pid not in (r.get('defaults') or {}):
                 continue
             bp = dict(bp, _last_value=before['internals'].get('last_values', {}).get(pid))
             lp = dict(l_ports[pid], _last_value=loaded['internals'].get('last_values', {}).get(pid))
@@ -716,9 +735,9 @@ def model_tie(ctx, res, cases, results, name):
         # live sets over the history
         hops = hub_ops(case, r['log'])
         items.append('(HC %s %s %s %s %s %s)' % (
-            coq.lst(hops), coq.lst([x['port_id'] for x in case['static']], c_str), coq.lst(sorted(p['id'] for p in before['ports'] if '.' not in p['id']), c_str),
+            coq.lst(hops), coq.lst([x['port_id'] for x in case['static']], c_str), coq.lst(sorted(p['id'] for p in before['ports'] if not is_slave_id(p['id'])), c_str),
             coq.lst(sorted(s['name'] for s in before['devices']), c_str),
-            coq.lst(sorted(p['id'] for p in loaded['ports'] if '.' not in p['id']), c_str),
+            coq.lst(sorted(p['id'] for p in loaded['ports'] if not is_slave_id(p['id'])), c_str),
             coq.lst(sorted(s['name'] for s in loaded['devices']), c_str)))
         owners.append((ci, 'hub', ''))
     shards, offs = [], []
@@ -770,7 +789,7 @@ def hub_ops(case, log):
             out.append('OAddVirtualPort %s' % c_str(op['id']))
         elif op['op'] == 'del_port':
             out.append('ORemovePort %s' % c_str(op['id']))
-        elif op['op'] == 'patch_port' and '.' not in op['id']:
+        elif op['op'] == 'patch_port' and not is_slave_id(op['id']):
             out.append('OSetAttr %s' % c_str(op['id']))
         elif op['op'] == 'write_save_fault' and len(r) > 3 and r[3].get('save_failed'):
             out.append('OWriteValue %s' % c_str(op['id']))
